@@ -137,6 +137,14 @@ void ds_sub_ring(void) {
     atomic_store(&pushers_done, 0);
     atomic_store(&ring_abort, 0);
     rb = lockfree_ring_buffer_create((uint32_t)cap_log);
+    if (vp_rand(&rng) & 1) {
+      // start the counters just below 2^32 (a multiple of the capacity below it): crossing that boundary must be a
+      // non-event for 64-bit counters, and it exposes any narrowing of the index arithmetic
+      const uint64_t start = 0x100000000ULL - ((uint64_t)(32 + vp_rand(&rng) % 64) << cap_log);
+      rb->high = start;
+      rb->low = start;
+      vp_count("ring_rounds_crossing_2pow32", 1);
+    }
     int i;
     for (i = 0; i < n_push + n_pop; ++i) vp_log_reset(&ds_w[i].log);
     ds_run_round(n_push + n_pop, round_fn);
